@@ -343,7 +343,7 @@ func main() {
 			cs.Universe = sh.DefaultUniverse()
 		}
 		if cs.Probe != "" {
-			replayProbe(c, &cs)
+			replayProbe(c, ar, &cs)
 			c.Finish("replay of one recorded probe case")
 		}
 		res := runCase(ar, or, &cs, nil, true)
@@ -459,7 +459,7 @@ func main() {
 	c.Extra["workers"] = workers
 
 	if optionalProbes {
-		runProbes(c)
+		runProbes(c, ar)
 	}
 
 	pprof.StopCPUProfile()
@@ -470,8 +470,111 @@ func main() {
 		"every answer is compared with the truth line, the model read and c03_ok; non-trivial = a revert followed by a store, or a zero / same-value write; distinct by (backend, op sequence)")
 }
 
-// ---------- optional probes (outside the Coq model) ----------
-const optionalProbes = false
+// ---------- optional probes (outside the Coq model; Go-side truth) ----------
+const optionalProbes = true
 
-func runProbes(c *hx.Ctx)             {}
-func replayProbe(c *hx.Ctx, cs *Case) {}
+// probeFails runs one probe case and tells whether it yields the class.
+func probeRun(ar *sh.Arena, cs *Case) ([]sh.ProbeFinding, int) {
+	switch cs.Probe {
+	case "syscontract":
+		return sh.RunSysCase(ar, cs.Backend == "new", cs.Universe, cs.Ops)
+	case "deploy+replace":
+		fs, _ := sh.RunDeployReplace(ar, cs.Backend == "new", cs.Ops)
+		return fs, 2
+	}
+	hx.Fatalf("unknown probe %q", cs.Probe)
+	return nil, 0
+}
+
+func probeReport(c *hx.Ctx, ar *sh.Arena, cs *Case, f sh.ProbeFinding) {
+	if reported[f.Class] {
+		return
+	}
+	reported[f.Class] = true
+	budget := 300
+	find := func(x *Case) *sh.ProbeFinding {
+		if len(x.Ops) == 0 || budget <= 0 {
+			return nil
+		}
+		budget--
+		fs, _ := probeRun(ar, x)
+		for k := range fs {
+			if fs[k].Class == f.Class {
+				return &fs[k]
+			}
+		}
+		return nil
+	}
+	cur := &Case{Probe: cs.Probe, Backend: cs.Backend, Universe: cs.Universe, Ops: sh.CloneOps(cs.Ops)}
+	what := f.What
+	for changed := true; changed && cs.Probe == "syscontract"; {
+		changed = false
+		for k := len(cur.Ops) - 1; k >= 0; k-- {
+			cand := &Case{Probe: cur.Probe, Backend: cur.Backend, Universe: cur.Universe}
+			cand.Ops = append(sh.CloneOps(cur.Ops[:k]), sh.CloneOps(cur.Ops[k+1:])...)
+			if g := find(cand); g != nil {
+				cur, what, changed = cand, g.What, true
+			}
+		}
+		for k := len(cur.Ops) - 1; k >= 0; k-- {
+			if cur.Ops[k].Revert {
+				continue
+			}
+			for j := cur.Ops[k].Block.Diff.Len() - 1; j >= 0; j-- {
+				cand := &Case{Probe: cur.Probe, Backend: cur.Backend, Universe: cur.Universe, Ops: sh.CloneOps(cur.Ops)}
+				cand.Ops[k].Block.Diff = *cur.Ops[k].Block.Diff.Without(j)
+				if g := find(cand); g != nil {
+					cur, what, changed = cand, g.What, true
+				}
+			}
+		}
+	}
+	c.Violation(f.Class, what, cur, false)
+}
+
+func runProbes(c *hx.Ctx, ar *sh.Arena) {
+	// 1. system contracts 0x1 / 0x2
+	n := 250
+	if c.Thorough() {
+		n *= 20
+	}
+	u := sh.SysUniverse()
+	r := hx.NewRNG(c.Seed ^ 0x5c5c)
+	answers := 0
+	for i := 0; i < n; i++ {
+		ops := sh.GenSysCase(r.Fork(uint64(i)), u)
+		for _, backend := range []string{"new", "legacy"} {
+			cs := &Case{Probe: "syscontract", Backend: backend, Universe: u, Ops: ops}
+			fs, a := probeRun(ar, cs)
+			answers += a
+			c.Hist["probe:syscontract-case-"+backend]++
+			for _, f := range fs {
+				probeReport(c, ar, cs, f)
+			}
+		}
+	}
+	c.Extra["probe_syscontract_answers"] = answers
+	// 2. deployment and class replacement of the same address in one block
+	var notes []string
+	for _, backend := range []string{"new", "legacy"} {
+		for _, atGenesis := range []bool{true, false} {
+			cs := &Case{Probe: "deploy+replace", Backend: backend, Ops: sh.DeployReplaceOps(atGenesis)}
+			fs, note := sh.RunDeployReplace(ar, backend == "new", cs.Ops)
+			notes = append(notes, fmt.Sprintf("genesis=%v %s", atGenesis, note))
+			for _, f := range fs {
+				probeReport(c, ar, cs, f)
+			}
+		}
+	}
+	c.Extra["probe_deploy_replace"] = notes
+}
+
+func replayProbe(c *hx.Ctx, ar *sh.Arena, cs *Case) {
+	fs, a := probeRun(ar, cs)
+	fmt.Printf("replay of probe %s (%s backend): %s\n  %d answers compared, %d findings\n", cs.Probe, cs.Backend, sh.OpsLine(cs.Ops), a, len(fs))
+	for _, f := range fs {
+		fmt.Printf("  finding %s: %s\n", f.Class, f.What)
+		probeReport(c, ar, cs, f)
+	}
+	c.Count(cs.Probe+"|"+cs.Backend+"|"+sh.OpsLine(cs.Ops), true)
+}
